@@ -18,7 +18,7 @@ let render v0 e =
   | ESet -> "evt SET"
   | EResume j -> Printf.sprintf "resume %d" (int_of_nat j)
   | EWait r -> "wait " ^ b01 r
-  | EStop -> "stop SET"
+  | EStop already -> if already then "stop NOP" else "stop SET"
   | ESync v -> Printf.sprintf "op L.acq %d" (int_of_z v)
   | ENestStart i -> Printf.sprintf "leaf %d start" (int_of_nat i)
   | ELeafDone i -> Printf.sprintf "leaf %d done" (int_of_nat i)
